@@ -1992,6 +1992,7 @@ def run(ctx):
     ctx.check_cases("pattern.modifier-chains.simple", simple, te.check_simple_modifiers)
     ctx.check_cases("format.spec-entry-points", bcl, te.check_bclformat)
     ctx.check_cases("roundtrip.redundant-fields", te.REDUNDANT, te.check_redundant_fields, exhaustive=True)
+    ctx.check_cases("roundtrip.standard-letters-in-every-calendar", te.cases_c07_standard_calendars(ctx), te.check_standard_with_calendar, exhaustive=True)
     import texthist
     texthist.run_history(ctx, [("culture", ctx.scale(3, 60)), ("random", ctx.scale(2, 40)), ("width", ctx.scale(1, 20))])
     ctx.check_cases("format.month-names", format_total_cases(ctx), wrap_skips(ctx, "format.month-names", oracle_format_total))
@@ -2020,7 +2021,8 @@ def replay_op(op, failure):
               "pattern.modifier-chains": __import__("text_entrypoints").check_modifiers,
               "pattern.modifier-chains.simple": __import__("text_entrypoints").check_simple_modifiers,
               "format.spec-entry-points": __import__("text_entrypoints").check_bclformat,
-              "roundtrip.redundant-fields": __import__("text_entrypoints").check_redundant_fields}[name]
+              "roundtrip.redundant-fields": __import__("text_entrypoints").check_redundant_fields,
+              "roundtrip.standard-letters-in-every-calendar": __import__("text_entrypoints").check_standard_with_calendar}[name]
         r = fn(case)
         return None if (r and "skip" in r) else r
     t = op.split(" ")
